@@ -179,6 +179,32 @@ def apiEncryptValidate (r : ApiReq) : ApiResp :=
 
 end
 
+/-! ### DPoP proofs: `Crypto.SignDPoP(ctx, token dpop.DPoP, kid)` -> `(*dpop.DPoP).Sign(kid, key, alg)`
+   The token is passed BY VALUE but its `Headers` (a jws.Headers interface value) are SHARED with the caller's token:
+   what one call writes into the headers is what the next call on the same token starts from; the "already signed"
+   marker (`t.raw`) is set on the copy only. `Sign` derives the `jwk` header from the signing key on EVERY call and
+   overwrites whatever the token carried (a jwk of a previous signing, a jwk the caller put there). -/
+
+/-- the public JWK of key pair `k` as a header value -/
+def pubJwk (k : Nat) : HVal := .jwk "public" ("K" ++ toString k)
+
+/-- `(*DPoP).Sign`: `t.Headers.Set("jwk", FromRaw(key.Public()))` — unconditional -/
+def dpopSignHeaders (h : Headers) (k : Nat) : Headers := hput h "jwk" (pubJwk k)
+
+/-- one `SignDPoP` call on a token whose shared headers are `h`: the protected header that is signed (= the shared
+    headers afterwards) and the key pair that signs; an unknown kid changes nothing -/
+def signDPoP (valid : String → Bool) (s : Store) (h : Headers) (kid : String) : Headers × KRes (Nat × Headers) :=
+  match signKey valid s kid with
+  | .error e => (h, .error e)
+  | .ok k => (dpopSignHeaders h k, .ok (k, dpopSignHeaders h k))
+
+/-- the same token handed to `SignDPoP` for a list of kids, one after the other -/
+def signDPoPSeq (valid : String → Bool) (s : Store) : Headers → List String → List (String × KRes (Nat × Headers))
+  | _, [] => []
+  | h, kid :: rest =>
+    let (h', r) := signDPoP valid s h kid
+    (kid, r) :: signDPoPSeq valid s h' rest
+
 /-- a header value that came out of `encoding/json` (string, or any other JSON value): never a `jwk.Key`, never `[]string` -/
 def HVal.isJson : HVal → Bool
   | .str _ => true
